@@ -372,7 +372,7 @@ def bounds(P, R):
     R.floor('C14.BND.2', 6)
 
 
-def decoder_advance(P, R):
+def decoder_advance(P, R, consumed_rule='C14.BND.3'):
     """BND.3: in the second (decoding) pass over a quoted string, an escape consumes the backslash and the
     escaped character; every further byte it skips must have been tested to be a hex digit (hence neither
     the closing quote nor the NUL).  Total advance on the escape path <= 1 + number of bytes proven hex."""
@@ -441,6 +441,17 @@ def decoder_advance(P, R):
             if done:
                 return st
             m = dict(mt)
+            # what the escape decodes into the output: the furthest byte (relative to the backslash) it reads for a store
+            if ev['k'] == 'store' and (ev.get('lhs') or {}).get('k') == 'idx' and on_path(ev['lhs'], 'vec'):
+                far = m.get('#read', -1)
+                for x in walk(ev.get('rhs')):
+                    if x.get('k') == 'idx' and is_var(x.get('base')) and x['base']['name'] in m and isinstance(const_of(x.get('index')), int):
+                        far = max(far, m[x['base']['name']] + const_of(x['index']))
+                    if x.get('k') == 'un' and x.get('op') == '*' and is_var(x.get('e')) and x['e']['name'] in m:
+                        far = max(far, m[x['e']['name']])
+                if far >= 0:
+                    m['#read'] = far
+                    return (tuple(sorted(m.items())), hx, done)
             if ev['k'] == 'store' and is_var(ev.get('lhs')):
                 v = ev['lhs']['name']
                 if v in m and ev.get('op') == '++':
@@ -504,6 +515,12 @@ def decoder_advance(P, R):
                 k += 1
             if adv > 2 + proven:
                 bad.append((adv, hx))
+        # ... nor fewer than it decoded: every byte read into the output is behind the scan position when the escape ends
+        short = [(dict(mt).get(endv, 99), dict(mt).get('#read')) for mt, hx, done in final if dict(mt).get('#read') is not None and dict(mt).get(endv, 99) < dict(mt)['#read'] + 1]
+        R.ob(consumed_rule, bool(final) and not short, P.relloc((f.blocks[e0.src].get('term') or {}).get('loc', '?')),
+             'an escape consumes every byte it decodes%s' % ('' if not short else ' (a path reads up to offset %s behind the backslash but advances only %s: the digits of \\xNN are copied again as text)' % (short[0][1], short[0][0])),
+             key='escape-consumed')
+        R.obligations[-1]['function'] = f.name
         n += 1
         R.ob('C14.BND.3', bool(final) and not bad, P.relloc((f.blocks[e0.src].get('term') or {}).get('loc', '?')),
              'an escape never skips more bytes than the backslash, the escaped character and the bytes proven to be hex digits%s'
